@@ -128,6 +128,7 @@ class SimConn:
         self.bytes_c2a = 0
         self.writes: list[list[bytes]] = []  # every transport.write/writelines call, verbatim
         self.t_lost_cb: float | None = None  # when protocol.connection_lost was invoked
+        self.force_coalesce = False  # the scenario wants the next send to share a read with the previous one
 
     # ---- accessory -> controller ------------------------------------------------------
     def server_send(self, data: bytes, *, delay: float | None = None, cuts: list[int] | None = None) -> None:
@@ -144,6 +145,16 @@ class SimConn:
                 continue
             piece = data[prev:c]
             prev = c
+            if first and self.a2c.q and self.a2c.q[-1][1][0] == "data":
+                # bytes of an earlier send are still in flight: TCP is a byte stream, the controller's next recv() may return the
+                # tail of that send and the head of this one together (one data_received call for two messages)
+                co = net.profile.get("coalesce", 0)
+                if self.force_coalesce or (co and net.ctx.ch.chance("net.coalesce", co)):
+                    t_prev, (_, prev_piece) = self.a2c.q[-1]
+                    self.a2c.q[-1] = (t_prev, ("data", prev_piece + piece))
+                    net.ctx.probe("sends_coalesced_into_one_read")
+                    first = False
+                    continue
             d = (delay if delay is not None else net.latency(self, "a2c")) if first else net.gap(self)
             first = False
             self.a2c.push(("data", piece), d)
